@@ -8,6 +8,7 @@ mod l3;
 mod l4;
 mod tok;
 mod util;
+mod valtree;
 
 use std::io::{BufRead, Write};
 use std::panic::{catch_unwind, AssertUnwindSafe};
